@@ -5,6 +5,8 @@ package tcell
 import (
 	"bytes"
 	"unicode/utf8"
+
+	"golang.org/x/text/encoding/korean"
 )
 
 // C11 — typed and pasted text is delivered rune for rune, in order.
@@ -118,5 +120,35 @@ func H11_paste() {
 	if focus != 0 {
 		f, okf := evs[exp-1].(*EventFocus)
 		vsymAssert(okf && f.Focused == (focus == 1), "focus report arrives as a focus event with the right value")
+	}
+}
+
+// H11_legacy: a registered multi-byte legacy charset (EUC-KR, the real x/text
+// decoder executed symbolically): every two-byte Hangul syllable, followed by an
+// ASCII letter, split anywhere, arrives as the syllable then the letter.
+func H11_legacy() {
+	t := hNewTScreen("xterm-256color")
+	t.charset = "EUC-KR"
+	t.decoder = korean.EUCKR.NewDecoder()
+	t.encoder = korean.EUCKR.NewEncoder()
+	lead, trail := vsymByte("lead"), vsymByte("trail")
+	vsymAssume(vsymAnd(vsymAnd(lead >= 0xb0, lead <= 0xc8), vsymAnd(trail >= 0xa1, trail <= 0xfe))) // KS X 1001 Hangul block
+	s := []byte{lead, trail, 'a'}
+	// reference: the same decoder on the whole character
+	ref := korean.EUCKR.NewDecoder()
+	dst := make([]byte, 8)
+	n, _, err := ref.Transform(dst, s[:2], true)
+	vsymAssume(err == nil && n > 0)
+	want, _ := utf8.DecodeRune(dst[:n])
+	vsymAssume(want != utf8.RuneError)
+	k := vsymChoice("k", 4)
+	evs, left := h11Feed(t, s, k)
+	vsymAssert(left == 0, "legacy text: nothing stays buffered")
+	vsymAssert(len(evs) == 2, "legacy text: one event per character (a two-byte character is one character)")
+	if len(evs) == 2 {
+		e0, ok0 := evs[0].(*EventKey)
+		e1, ok1 := evs[1].(*EventKey)
+		vsymAssert(ok0 && e0.Key() == KeyRune && e0.Rune() == want, "legacy text: the two-byte character arrives as its rune")
+		vsymAssert(ok1 && e1.Key() == KeyRune && e1.Rune() == 'a', "legacy text: the following letter arrives after it")
 	}
 }
